@@ -27,6 +27,11 @@ func completeGetopt(fm *eval.Frame, vArgs, vOpts, vArgHandlers any) error {
 		return err
 	}
 
+	if len(args) == 0 {
+		// getopt.Complete completes the last argument.
+		return errors.New("arg list should not be empty")
+	}
+
 	// TODO: Make the Config field configurable
 	_, parsedArgs, ctx := getopt.Complete(args, opts.opts, getopt.GNU)
 
@@ -63,7 +68,7 @@ func completeGetopt(fm *eval.Frame, vArgs, vOpts, vArgHandlers any) error {
 		var argHandler eval.Callable
 		if len(parsedArgs) < len(argHandlers) {
 			argHandler = argHandlers[len(parsedArgs)]
-		} else if variadic {
+		} else if variadic && len(argHandlers) > 0 {
 			argHandler = argHandlers[len(argHandlers)-1]
 		}
 		if argHandler != nil {
